@@ -306,6 +306,9 @@ func genC14(c *Ctx) {
 					dataDep = true // the text is not a document of that format
 				}
 			}
+			if strings.HasSuffix(cls, "chain/from-parsed-text") {
+				dataDep = false // these texts ARE documents of the format: a failure further down the chain is not about the data
+			}
 			if strings.Contains(out.Msg, "nothing in array") {
 				dataDep = true // an empty list, or an index beyond its end
 			}
